@@ -690,6 +690,15 @@ def c08_checks(repo: Repo, tier: str, res: CheckResult, seed: int) -> int:
             if not ok:
                 res.add(_gen_finding("C08", "CTOR.saturator", prog, call.lineno, "saturator call",
                                      "the saturator must be called once with (result, extra)"))
+        # a default may stand in for an ABSENT key only: a handler that decides "absent" (KeyError / IndexError ...) must not
+        # see the exceptions of the field's loader, or a present field whose loader raises that class silently gets the default
+        from .genaudit import access_try_scopes as _ats
+        for hs, callee, line in _ats(prog.fn, prefixes=("loader_",)):
+            if any(h in hs for h in ("KeyError", "IndexError", "LookupError", "AttributeError")):
+                res.add(_gen_finding("C08", "DEFAULT.present-field-defaulted", prog, line, f"{callee.replace(callee[7:], 'F')} inside a handler for {hs}",
+                                     f"`{callee}(...)` runs inside a try whose handler for {hs} assigns the default (treats the key as absent): "
+                                     f"when the field IS present and its loader (a user loader, a nested constructor) raises {hs.split(',')[0]}, "
+                                     "the constructor receives the default instead of the value and no error is raised"))
         # defaults: absent optional field with default gets the true default
         for f in rec["fields"]:
             fid, kind = f["id"], f["kind"]
